@@ -217,7 +217,7 @@ class Generator {
     switch (k) {
       case OP_EXPECT: return gen_expect();
       case OP_CALL: return gen_call(depth);
-      case OP_NEW_MOCK: return mk(k, rng_.below(2));
+      case OP_NEW_MOCK: return mk(k, rng_.chance(1, 5) ? 2 : rng_.below(2));
       case OP_MOVE_MOCK: return mk(k, rng_.below(8), rng_.below(2));
       case OP_ASSIGN_WATCHED: { Op o = mk(k, rng_.below(8), rng_.below(8)); o.a[2] = rng_.below(2); return o; }
       case OP_REQ_DESTRUCTION: { Op o = mk(k, rng_.below(8), profile_ == PF_SEQ ? rng_.range(0, 2) : (rng_.chance(1, 3) ? rng_.range(1, 2) : 0)); o.a[7] = rng_.below(8); o.a[9] = rng_.below(4); if (depth == 0 && scoped_pct_ && rng_.below(100) < scoped_pct_) o.a[8] |= 2; return o; }
